@@ -47,7 +47,8 @@ ASSUMPTIONS = [
     "present2 in Sigc/Trk.lean) are proved on the wider domain History.Domain2 (callbacks remove and add in any mix; only "
     "nested notify_callbacks() excluded): add_in_round_safe / add_in_round_once / add_in_round_ignored / exactly_once_wide; "
     "present2_eq_present_of_domain: on the narrow domain both readings coincide. The generator's edge histories (callbacks "
-    "that add) are compared model == library under sanitizers and judged by the monitor with the same reading",
+    "that add) are compared model == library under sanitizers; the monitor does not judge them (the statement does not say "
+    "whether such a call registers)",
     "callbacks act on the trackable being notified only; trackable_callback_list::clear() (no caller) is not modelled",
     "operations naming a destroyed trackable are skipped on both sides (no user-level undefined behaviour in histories)",
     "the property does not fix the order of deliveries inside a round; the monitor does not check it "
@@ -121,10 +122,11 @@ def parse(line):
 
 
 def in_domain(scripts):
-    """the histories the monitor judges = History.Domain2 of the model: callbacks remove and add (no nested notify).
-    An add issued from inside a delivery round registers nothing (trackable.cc: `if (!clearing_)`; the statement is
-    read as 'what the call registered', see exactly_once_wide / add_in_round_witness)"""
-    return all(b[0] in ("r", "a") for body in scripts for b in body)
+    """the histories the monitor judges = History.Domain of the model (the property's quantifier: callbacks that
+    remove).  Histories whose callbacks also add are compared model == library only: whether an add issued from
+    inside a round 'registers' is not decided by the statement (the code drops it; exactly_once_wide proves the
+    model's behaviour under that reading), so the monitor does not judge them"""
+    return all(b[0] == "r" for body in scripts for b in body)
 
 
 def in_narrow_domain(scripts):
@@ -171,7 +173,7 @@ def monitor(line, out, stats=None):
         return None if out == "parse-error" else "malformed history answered with " + out[:60]
     scripts, ops = h
     if not in_domain(scripts):
-        return None  # outside the property's quantifier (nested notify inside a round): correspondence only
+        return None  # outside the property's quantifier (add / nested notify inside a round): correspondence only
     if out.startswith("CRASH"):
         return "the library crashed / a sanitizer fired where the property promises a safe delivery round: " + out[:300]
     toks = out.split()
@@ -568,7 +570,7 @@ def correspondence(ctx):
     lens = [len(l.split()) for l in gen]
     stats.update({"corpus_histories": len(corpus), "generated_histories": len(gen), "edge_histories": len(edge),
                   "long_list_histories": len(big), "malformed_lines": len(MALFORMED),
-                  "histories_with_add_in_round(judged with the round-aware reading: such an add registers nothing)":
+                  "histories_with_add_in_round(model == library only; not judged by the monitor)":
                       sum(1 for l in lines if (parse(l) and not in_narrow_domain(parse(l)[0]))),
                   "out_of_domain_histories(correspondence only)":
                       sum(1 for l in lines if (parse(l) and not in_domain(parse(l)[0]))),
@@ -685,7 +687,7 @@ def replay(ctx, path):
             print("model and implementation differ (the statement itself is not violated on this input)")
             rc = 1
         elif parse(l) and not in_domain(parse(l)[0]):
-            print("ok: implementation == model (history outside C16's domain — nested notify inside a round — so the "
+            print("ok: implementation == model (history outside C16's domain — add inside a round — so the "
                   "statement does not apply)")
         else:
             print("ok: implementation == model, statement holds")
